@@ -16,7 +16,8 @@ for f in os.listdir(O):
         shutil.copy(f"{O}/{f}", f"{D}/{f}")
 meta = json.load(open(f"{O}/meta.json"))
 t0 = time.time()
-out = subprocess.run(["/verif/tools/try_seed.sh", f"{D}/patch.diff", "quick"], capture_output=True, text=True).stdout
+ids = os.environ.get("KEEP_IDS", "").split()  # restrict the checks run (default: all registered)
+out = subprocess.run(["/verif/tools/try_seed.sh", f"{D}/patch.diff", "quick"] + ids, capture_output=True, text=True).stdout
 caught, missed, detail = [], [], {}
 for line in out.splitlines():
     mm = re.match(r"(C\d+) exit=(\d+)\s*(.*)", line)
@@ -31,7 +32,7 @@ meta.update({
     "breaks_property": cid,
     "confirmed_by_me": {"demo_fails_with_change": True, "demo_passes_without_change": True, "existing_suite_passes_with_change": True,
                         "how": "tools/confirm_seed.sh in the scratch worktree: demo command with the change, with the change reverted (git apply -R), and cargo test --workspace --offline with the change applied and the demonstration removed"},
-    "checks_run": "tools/try_seed.sh <patch> quick (every registered quick command with the change applied to /repo, then git checkout -- .)",
+    "checks_run": "tools/try_seed.sh <patch> quick " + (" ".join(ids) if ids else "(every registered quick command)") + " with the change applied to /repo, then git checkout -- .",
     "caught_by_quick": caught, "first_violation": detail, "quiet_quick": missed, "wall_s_all_checks": round(time.time() - t0, 1),
 })
 json.dump(meta, open(f"{D}/meta.json", "w"), indent=1)
